@@ -1,5 +1,256 @@
-import BiotiteModel.Model.C06Containers
+import BiotiteModel.Proofs.C06
+import BiotiteModel.Proofs.C06Containers
 import BiotiteModel.Gen.C06
+/-!
+# C06 — property theorems (the CIF text layer returns every string table unchanged)
+
+Only property statements and non-vacuity examples; helper lemmas are in `Proofs/C06*.lean`.
+All theorems quantify over *all* strings / rows / histories (no size bound).
+-/
 namespace BiotiteModel.C06
-theorem C06_placeholder : escape [] = [q1, q1] := by decide
+
+/-! ## Tokens and rows (single-line values without both quote characters) -/
+
+/-- **Token.**  Every single-line value (any characters except line breaks; not both quote
+characters at once) is returned unchanged by the tokeniser after the writer's quoting decision. -/
+theorem C06_token (v : Str) (hs : SingleLine v) (hb : ¬ BothQuotes v) :
+    splitOneLine (escape v) = .ok [v] := by
+  obtain ⟨htok, hsafe⟩ := escape_tok v hs hb
+  have hrel : RowRel [v] [(escape v, 0)] := RowRel.cons htok RowRel.nil
+  have := splitOneLine_padded [v] [(escape v, 0)] hrel (by simp) (by simpa [padded] using hsafe.semi)
+  simpa [padded] using this
+
+theorem rowRel_escape (row : List Str) (toks : List (Str × Nat)) (hm : toks.map (·.1) = row.map escape)
+    (h : ∀ v ∈ row, SingleLine v ∧ ¬ BothQuotes v) : RowRel row toks := by
+  induction row generalizing toks with
+  | nil => cases toks <;> simp_all [RowRel.nil]
+  | cons v vs ih =>
+    cases toks with
+    | nil => simp at hm
+    | cons tn rest =>
+      simp only [List.map_cons, List.cons.injEq] at hm
+      have hv := h v (by simp)
+      refine RowRel.cons ?_ (ih rest hm.2 (fun x hx => h x (by simp [hx])))
+      rw [hm.1]; exact (escape_tok v hv.1 hv.2).1
+
+/-- **Row, any padding.**  A row of such values, each written by `_escape` and followed by one or
+more blanks (none after the last), is split back into exactly the row — wherever the awkward
+value stands, including the first column (no `SafeHead` hypothesis: after the `fix:` commits
+the writer quotes `#`, `;`, `data_…`, `loop_…`). -/
+theorem C06_row (row : List Str) (pads : List Nat) (hne : row ≠ []) (hlen : pads.length = row.length)
+    (h : ∀ v ∈ row, SingleLine v ∧ ¬ BothQuotes v) :
+    splitOneLine (padded ((row.map escape).zip pads)) = .ok row := by
+  have hm : ((row.map escape).zip pads).map (·.1) = row.map escape := by
+    rw [List.map_fst_zip]; simp [hlen]
+  have hrel := rowRel_escape row _ hm h
+  have hne' : (row.map escape).zip pads ≠ [] := by
+    cases row with
+    | nil => exact absurd rfl hne
+    | cons v vs => cases pads with
+      | nil => simp at hlen
+      | cons p ps => simp
+  refine splitOneLine_padded row _ hrel hne' ?_
+  cases row with
+  | nil => exact absurd rfl hne
+  | cons v vs =>
+    cases pads with
+    | nil => simp at hlen
+    | cons p ps =>
+      have hv := h v (by simp)
+      have hs := (escape_tok v hv.1 hv.2)
+      simp only [List.map_cons, List.zip_cons_cons]
+      rw [padded_head? _ _ _ (tok_ne_nil _ _ hs.1)]
+      exact hs.2.semi
+
+theorem length_le_maxLen (xs : List Str) (x : Str) (hx : x ∈ xs) : x.length ≤ maxLen xs := by
+  unfold maxLen
+  have gen : ∀ (ys : List Str) (m : Nat), m ≤ ys.foldl (fun m x => max m x.length) m ∧
+      ∀ y ∈ ys, y.length ≤ ys.foldl (fun m x => max m x.length) m := by
+    intro ys
+    induction ys with
+    | nil => intro m; simp
+    | cons y ys ih =>
+      intro m
+      have h1 := ih (max m y.length)
+      refine ⟨by simp only [List.foldl_cons]; omega, ?_⟩
+      intro z hz
+      simp only [List.foldl_cons]
+      rcases List.mem_cons.mp hz with e | e
+      · subst e; omega
+      · exact h1.2 z e
+  exact (gen xs 0).2 x hx
+
+/-- The column width the writer uses (`itemsize + 1` = longest escaped element + 1) leaves at
+least one blank after every element of the column. -/
+theorem C06_width_sufficient (col : List Str) (v : Str) (hv : v ∈ col) :
+    (escape v).length < maxLen (col.map escape) + 1 := by
+  have := length_le_maxLen (col.map escape) (escape v) (List.mem_map_of_mem hv)
+  omega
+
+/-- **Row as written.**  One value line of `_serialize_looped` (`ljust` to the column widths,
+`strip`), stripped again by the reader and tokenised, is the row. -/
+theorem C06_row_written (row : List Str) (ws : List Nat) (hne : row ≠ []) (hlen : ws.length = row.length)
+    (hw : ∀ p ∈ ws.zip (row.map escape), p.2.length < p.1)
+    (h : ∀ v ∈ row, SingleLine v ∧ ¬ BothQuotes v) :
+    splitOneLine (strip (rowLine ws (row.map escape))) = .ok row := by
+  have hlen' : ws.length = (row.map escape).length := by simp [hlen]
+  have hne' : row.map escape ≠ [] := by simpa using hne
+  have hm := padsOf_map_fst ws (row.map escape) hlen'
+  have hrel := rowRel_escape row _ hm h
+  have hpn := padsOf_ne_nil ws (row.map escape) hlen' hne'
+  rw [rowLine_padded row ws _ hlen' hrel hne' hw, strip_padded _ hpn (rowRel_edges _ _ hrel)]
+  refine splitOneLine_padded row _ hrel hpn ?_
+  cases row with
+  | nil => exact absurd rfl hne
+  | cons v vs =>
+    cases ws with
+    | nil => simp at hlen
+    | cons w ws' =>
+      have hv := h v (by simp)
+      have hs := (escape_tok v hv.1 hv.2)
+      simp only [List.map_cons, padsOf]
+      rw [padded_head? _ _ _ (tok_ne_nil _ _ hs.1)]
+      exact hs.2.semi
+
+/-- **All value lines of a looped category**: tokenising the written lines one by one gives back
+the rows, in order. -/
+theorem C06_looped_lines (rows : List (List Str)) (ws : List Nat)
+    (hrow : ∀ row ∈ rows, row ≠ [] ∧ ws.length = row.length ∧
+      (∀ p ∈ ws.zip (row.map escape), p.2.length < p.1) ∧ ∀ v ∈ row, SingleLine v ∧ ¬ BothQuotes v) :
+    mapM' splitOneLine ((rows.map (fun r => rowLine ws (r.map escape))).map strip) = .ok rows := by
+  induction rows with
+  | nil => rfl
+  | cons r rs ih =>
+    obtain ⟨h1, h2, h3, h4⟩ := hrow r (by simp)
+    have := C06_row_written r ws h1 h2 h3 h4
+    have ih' := ih (fun x hx => hrow x (by simp [hx]))
+    simp only [List.map_cons, mapM', this, ih', bind, Except.bind]
+
+/-! ## The reader's line-start tests against the writer's quoting (regenerated tables) -/
+
+/-- The if/elif chain extracted from the *current* `_escape` computes the model's `escape`. -/
+theorem C06_gen_escape (v : Str) :
+    interp Gen.C06.escapeBranches Gen.C06.escapeDefault v = escape v := by
+  simp [Gen.C06.escapeBranches, Gen.C06.escapeDefault, interp, Cond.eval, Act.apply, escape,
+    quoteWith, q1, q2, sData, sLoop, Bool.or_assoc]
+
+/-- `_multiline` as extracted equals the model's delimiters. -/
+theorem C06_gen_multiline (v : Str) :
+    Gen.C06.multilinePrefix.toList ++ v ++ Gen.C06.multilineSuffix.toList = multiline v := by
+  simp [Gen.C06.multilinePrefix, Gen.C06.multilineSuffix, multiline]
+
+/-- **Every first character / prefix the reader treats specially is quoted by the writer**: of
+all first-character tests found in the reader functions of the current `cif.py`, the only one
+that can fire on a written single-line token is the test for an opening quote. -/
+theorem C06_special_heads_quoted (v : Str) (hs : SingleLine v) (hb : ¬ BothQuotes v) :
+    ∀ t ∈ Gen.C06.readerHeadTests, t.2.eval (escape v) = true → t.2 = Cond.firstIn [q1, q2] := by
+  obtain ⟨_, hsafe⟩ := escape_tok v hs hb
+  intro t ht
+  simp only [Gen.C06.readerHeadTests, List.mem_cons, List.mem_nil_iff, or_false] at ht
+  have h1 := hsafe.semi
+  have h2 := hsafe.hash
+  have h3 := hsafe.under
+  have h4 := hsafe.data
+  have h5 := hsafe.loop
+  rcases ht with rfl | rfl | rfl | rfl | rfl | rfl | rfl | rfl <;>
+    simp_all [Cond.eval, sData, sLoop]
+
+/-- The reader of the current `cif.py` still performs each line-start test the model has (a
+test that disappears or is applied to a derived string breaks this obligation or the extraction). -/
+theorem C06_gen_reader_tests_present :
+    ([.firstIs '#', .startsWith "data_", .firstIs '_', .startsWith "loop_", .firstIs ';', .firstIn [q1, q2]] :
+      List Cond).all (fun c => (Gen.C06.readerHeadTests.map (·.2)).contains c) = true := by
+  decide
+
+/-! ## Masks -/
+
+/-- `.`/`?` mask states survive: what the reader infers from a rendered cell is the cell
+(a PRESENT value is by construction not the string `.` or `?` — `CIFColumn` itself reads those
+as INAPPLICABLE / MISSING). -/
+theorem C06_mask (c : Cell) (h : ∀ v, c = .present v → v ≠ sDot ∧ v ≠ sQm) : Cell.infer c.render = c := by
+  cases c with
+  | present v =>
+    have := h v rfl
+    simp [Cell.render, Cell.infer, this.1, this.2]
+  | inapplicable => decide
+  | missing => decide
+
+/-- The limit stated: a PRESENT string `.` cannot be told from INAPPLICABLE. -/
+theorem C06_present_dot_indistinguishable : Cell.infer (Cell.present sDot).render = .inapplicable := by decide
+
+/-! ## Containers -/
+
+/-- **Lazy parsing is unobservable.**  For every history of `get/set/set-serialised/del/contains/
+iter/len` on a File/Block/Category container of either flavour, started from any mixture of
+still-serialised and already-parsed elements, the outputs equal those of a plain
+insertion-ordered mapping and the final states are related by the abstraction function. -/
+theorem C06_container_refines {κ ρ ν : Type} [BEq κ] [LawfulBEq κ] (kind : Kind) (parse : ρ → Option ν)
+    (st : Store κ ρ ν) (ops : List (Op κ ρ ν)) :
+    specRun kind parse (absStore parse st) ops =
+      (absStore parse (run kind parse st ops).1, (run kind parse st ops).2) :=
+  run_refines kind parse ops st
+
+/-- `get` after lazy parsing returns `parse raw`, and the element is cached. -/
+theorem C06_get_parses {κ ρ ν : Type} [BEq κ] [LawfulBEq κ] (kind : Kind) (parse : ρ → Option ν)
+    (st : Store κ ρ ν) (k : κ) (r : ρ) (v : ν) (h : lookup k st = some (.raw r)) (hp : parse r = some v) :
+    (step kind parse st (.get k)).2 = .val v ∧
+    lookup k (step kind parse st (.get k)).1 = some (.parsed v) := by
+  simp only [step, h, hp, true_and]
+  clear hp
+  induction st with
+  | nil => simp [lookup] at h
+  | cons x xs ih =>
+    obtain ⟨k', e⟩ := x
+    by_cases hk : (k' == k) = true
+    · simp [dictSet, lookup, hk]
+    · have hk' : (k' == k) = false := by simpa using hk
+      simp only [lookup, hk', Bool.false_eq_true, if_false] at h
+      simp [dictSet, lookup, hk', ih h]
+
+/-! ## Multi-line values: what the current reader loses (known findings; witnesses replayed on the code) -/
+
+def str (s : String) : Str := s.toList
+
+/-- written then read as a looped category `c` with one column `k` and the rows `v`, `"p"` -/
+def rt2 (v : Str) : Except Err (Str × List (Str × List Str)) :=
+  match categorySerialize ['c'] [(['k'], [v, ['p']])] with
+  | .ok t => categoryDeserialize t
+  | .error e => .error e
+
+/-- blank line inside a multi-line value is lost -/
+theorem C06_multiline_blank_line_defect :
+    rt2 ['x', '\n', '\n', 'y'] = .ok (['c'], [(['k'], [['x', '\n', 'y'], ['p']])]) := by decide
+/-- a `#` line cuts the value -/
+theorem C06_multiline_hash_line_defect :
+    rt2 ['x', '\n', '#', 'y'] = .ok (['c'], [(['k'], [['x'], ['p']])]) := by decide
+/-- a `;` line ends the value; the rest shifts -/
+theorem C06_multiline_semicolon_line_defect :
+    rt2 ['x', '\n', ';', 'y'] = .ok (['c'], [(['k'], [['x']])]) := by decide
+/-- indentation is lost -/
+theorem C06_multiline_indented_line_defect :
+    rt2 ['x', '\n', ' ', 'y'] = .ok (['c'], [(['k'], [['x', '\n', 'y'], ['p']])]) := by decide
+/-- trailing blanks of a line are lost -/
+theorem C06_multiline_trailing_blank_defect :
+    rt2 ['x', '\n', 'y', ' '] = .ok (['c'], [(['k'], [['x', '\n', 'y'], ['p']])]) := by decide
+/-- single-line value with both quote characters: trailing blank lost -/
+theorem C06_both_quotes_trailing_blank_defect :
+    rt2 ['a', q1, q2, ' '] = .ok (['c'], [(['k'], [['a', q1, q2], ['p']])]) := by decide
+
+/-! ## Non-vacuity -/
+
+example : SingleLine (str "loop_ it's #1") ∧ ¬ BothQuotes (str "loop_ it's #1") := by
+  constructor
+  · unfold SingleLine; decide
+  · unfold BothQuotes; decide
+example : escape (str "#x") = str "'#x'" := by decide
+example : escape (str "_a' b") = str "\"_a' b\"" := by decide
+example : splitOneLine (str "'#x'   \"_a' b\" data 'data_1' ''") =
+    .ok [str "#x", str "_a' b", str "data", str "data_1", []] := by decide
+example : rt2 ['#', 'x'] = .ok (['c'], [(['k'], [['#', 'x'], ['p']])]) := by decide
+example : rt2 ['x', '\n', 'y'] = .ok (['c'], [(['k'], [['x', '\n', 'y'], ['p']])]) := by decide
+example : rt2 ['a', q1, q2, 'b'] = .ok (['c'], [(['k'], [['a', q1, q2, 'b'], ['p']])]) := by decide
+example : (run (κ := Nat) (ρ := Nat) (ν := Nat) ⟨false, true⟩ (fun r => if r = 0 then none else some r)
+    [(1, .raw 5), (2, .raw 0)] [.get 1, .get 2, .del 1, .iter, .get 1]).2 =
+    [.val 5, .err derr, .unit, .keys [2], .err .keyError] := by decide
+
 end BiotiteModel.C06
